@@ -264,6 +264,18 @@ mod space_map {
             start
         }
 
+        /// Verification hook: `addr_to_index`.
+        #[cfg(feature = "mmtk_verif")]
+        pub fn verif_addr_to_index(addr: Address) -> usize {
+            Self::addr_to_index(addr)
+        }
+
+        /// Verification hook: `(table length, space_address_start, space_address_end)`.
+        #[cfg(feature = "mmtk_verif")]
+        pub fn verif_bounds(&self) -> (usize, Address, Address) {
+            (self.sft.len(), self.space_address_start, self.space_address_end)
+        }
+
         fn index_to_space_range(i: usize) -> (Address, Address) {
             if i == 0 {
                 panic!("Invalid index: there is no space for index 0")
@@ -605,6 +617,45 @@ mod sparse_chunk_map {
                 );
             }
             unsafe { self.sft.get_unchecked(chunk).store(sft) };
+        }
+    }
+}
+
+/// Verification hooks: a private `SFTSpaceMap` (the global `SFT_MAP` is not touched).
+#[cfg(all(feature = "mmtk_verif", target_pointer_width = "64"))]
+pub mod verif_hooks {
+    use super::*;
+
+    /// Wrapper around a private `SFTSpaceMap`.
+    pub struct SpaceMap(space_map::SFTSpaceMap);
+
+    impl Default for SpaceMap {
+        fn default() -> Self {
+            Self::new()
+        }
+    }
+
+    impl SpaceMap {
+        /// `SFTSpaceMap::new()`
+        pub fn new() -> Self {
+            SpaceMap(space_map::SFTSpaceMap::new())
+        }
+        /// `(table length, space_address_start, space_address_end)`
+        pub fn bounds(&self) -> (usize, usize, usize) {
+            let (n, s, e) = self.0.verif_bounds();
+            (n, s.as_usize(), e.as_usize())
+        }
+        /// `addr_to_index(addr)`
+        pub fn addr_to_index(addr: Address) -> usize {
+            space_map::SFTSpaceMap::verif_addr_to_index(addr)
+        }
+        /// `has_sft_entry(addr)`
+        pub fn has_sft_entry(&self, addr: Address) -> bool {
+            self.0.has_sft_entry(addr)
+        }
+        /// `get_checked(addr).name()`
+        pub fn get_checked_name(&self, addr: Address) -> String {
+            self.0.get_checked(addr).name().to_string()
         }
     }
 }
